@@ -41,7 +41,12 @@ def run_one(m):
         except SyntaxError as e:
             return m, 'STALE', 'mutant does not compile: %s' % e
         env = dict(os.environ, VERIF_REPO=d, VERIF_EVIDENCE_DIR=os.path.join(d, 'evidence'), VERIF_REPLAY_DIR=os.path.join(d, 'replay'))
-        r = subprocess.run([os.path.join(HERE, 'check'), m['property'], '--tier', 'quick'], capture_output=True, text=True, env=env, timeout=3000)
+        cmd = [os.path.join(HERE, 'check'), m['property'], '--tier', 'quick']
+        if m.get('only'):
+            # optional: restrict the check to the contracts whose key contains this text.  It must name EVERY contract that executes
+            # the edited function's real body (then the restricted verdict equals the full one); absent = full check
+            cmd += ['--only', m['only']]
+        r = subprocess.run(cmd, capture_output=True, text=True, env=env, timeout=3000)
         out = r.stdout + r.stderr
         kind = m.get('kind', 'kill')
         if kind == 'kill':
